@@ -26,6 +26,14 @@ type snap struct {
 	text  string
 }
 
+// mapSnap: an interval map the memory returned (Missing / Blocks), with what
+// it said when it was returned.
+type mapSnap struct {
+	label string
+	live  interval.Map[model.Addr]
+	text  string
+}
+
 type sliceSnap struct {
 	label string
 	live  []byte
@@ -45,6 +53,7 @@ type harness struct {
 	snaps []snap
 	ssnap []sliceSnap
 	loaded []expr.Expr // expressions returned by the history's loads, in order
+	msnap  []mapSnap   // interval maps returned by explicit Missing / Blocks events
 
 	sawOverlap   bool
 	readAfterOvl bool
@@ -236,6 +245,9 @@ func (h *harness) checkMissing(ev int, oracle string, mem memory.Memory, m *byte
 	}
 	want := m.Missing(addr, w)
 	g := rangesOf(got)
+	if oracle == "missing" && len(h.msnap) < 24 {
+		h.msnap = append(h.msnap, mapSnap{fmt.Sprintf("returned by Missing(%#x,%d) at event %d", addr, w, ev), got, fmtRanges(g)})
+	}
 	h.ctx.Note("%s %#x %d -> %s", oracle, addr, w, fmtRanges(g))
 	if !sameRanges(g, want) {
 		cls := "other"
@@ -258,6 +270,9 @@ func (h *harness) checkBlocks(ev int, oracle string, mem memory.Memory, m *bytem
 	}
 	want := m.Blocks()
 	g := rangesOf(got)
+	if oracle == "blocks" && len(h.msnap) < 24 {
+		h.msnap = append(h.msnap, mapSnap{fmt.Sprintf("returned by Blocks() at event %d", ev), got, fmtRanges(g)})
+	}
 	h.ctx.Note("%s -> %s", oracle, fmtRanges(g))
 	if !sameRanges(g, want) {
 		return !h.ctx.Fail(h.prop, oracle, oracle+"/mismatch", ev, "Blocks() = %s, model = %s", fmtRanges(g), fmtRanges(want))
@@ -287,6 +302,16 @@ func (h *harness) checkAliases(ev int) bool {
 		if now := refeval.Render(s.ex); now != s.text {
 			return !h.ctx.Fail(h.prop, "aliasing", "aliasing/expr-changed", ev,
 				"value %s changed after event %d: was %s, is %s", s.label, ev, s.text, now)
+		}
+	}
+	for _, s := range h.msnap {
+		now := ""
+		if _, _, p := core.Guard(func() { now = fmtRanges(rangesOf(s.live)) }); p {
+			now = "<unreadable>"
+		}
+		if now != s.text {
+			return !h.ctx.Fail(h.prop, "aliasing", "aliasing/ranges-changed", ev,
+				"interval list %s changed after event %d: was %s, is %s", s.label, ev, s.text, now)
 		}
 	}
 	for _, s := range h.ssnap {
